@@ -328,6 +328,8 @@ class HeapEngine(HeapOps):
             return ('handler', h_UUID)
         if mod == 'copy' and attr == 'copy':
             return ('handler', h_copy_copy)
+        if mod == 'operator' and attr == 'index':
+            return ('handler', h_operator_index)
         return super().external_call(imp, attr)
 
     def py_str_of(self, v, st, node):
@@ -342,6 +344,24 @@ def h_uuid4(ex, e, st):
     s = const(fresh_name('uuid4'), STR)
     o = st.assume(App('canon_uuid', BOOL, s))
     return [(o, tm.Ctor('VOpq', App('uuid_obj', INT, s)))]
+
+
+def h_operator_index(ex, e, st):
+    """operator.index(x): the int value of an int/bool, TypeError for every other builtin value
+    (objects with __index__ are outside the modelled value universe: opaque values raise as well)"""
+    out = []
+    for o, args, kw in bi.eval_args(ex, e, st):
+        if not o.running:
+            out.append((o, None))
+            continue
+        x = args[0]
+        ok = o.assume(intlike(x))
+        if ok is not None:
+            out.append((ok, VInt(as_int(x))))
+        bad = o.assume(Not(intlike(x)))
+        if bad is not None:
+            out.append((bad.raise_('TypeError', e.lineno), None))
+    return out
 
 
 def h_copy_copy(ex, e, st):
